@@ -303,6 +303,20 @@ func cutOffset(c Cut, resp []byte, f1len int, piggy string) int {
 	switch c.Cls {
 	case "abs":
 		return c.Off
+	case "frac": // per mille of everything written before the client is done
+		pg := 0
+		switch piggy {
+		case "partial":
+			pg = 3
+		case "whole", "big":
+			pg = f1len
+		case "two":
+			pg = f1len + 5
+		}
+		if r+pg < 2 {
+			return 0
+		}
+		return 1 + (r+pg-2)*c.Off/1000
 	case "sl-mid":
 		return 5
 	case "sl-crlf":
@@ -600,10 +614,10 @@ func (sv *server) serve(p Params, round int, seed int64, hs *hsState, out chan<-
 	var cuts []int
 	for _, c := range p.Cuts {
 		o := cutOffset(c, resp, len(fs[0].encode()), p.Piggy)
-		if o != c.Off {
+		if o != c.Off && c.Cls != "frac" {
 			rep.note += fmt.Sprintf("cut %s: model offset %d, real %d; ", c.Cls, c.Off, o)
 		}
-		if o > 0 && o < limit {
+		if o > 0 && o < limit && (len(cuts) == 0 || o > cuts[len(cuts)-1]) {
 			cuts = append(cuts, o)
 		}
 	}
@@ -933,7 +947,7 @@ func (sc *scenario) round(rn int, rd Round) error {
 		rs := base
 		rs.Ev, rs.Status, rs.Rupg, rs.Racc, rs.Complete, rs.Feat, rs.Nsent = "Resp", p.Status, p.Upg, p.Acc, rep.complete, p.feat(), rep.nsent
 		rs.Rlen, rs.Ncut, rs.Nsep, rs.Note = rep.rlen, rep.ncut, rep.nsep, rep.note
-		if rep.rlen != 0 && rep.rlen != rd.R {
+		if rep.rlen != 0 && rd.R != 0 && rep.rlen != rd.R {
 			rs.Note += fmt.Sprintf("model R=%d real R=%d; ", rd.R, rep.rlen)
 		}
 		end.Cbytes = rep.cbytes
@@ -959,6 +973,9 @@ var errAbandon = errors.New("scenario abandoned after a panic in the library")
 // compare the observation with the model's prediction (drift is reported,
 // never a verdict)
 func (sc *scenario) compare(rn int, rd Round, evs []Ev) {
+	if len(rd.Pred) == 0 {
+		return // sampled scenario without a model prediction
+	}
 	key := func(e Ev) string {
 		acc := e.Err == "nil"
 		switch e.Ev {
